@@ -397,7 +397,7 @@ def _replay(chk, path):
         print('replay: translation / proof obligation', r.get('theorem_or_file'), '-> still broken' if chk.violations else '-> checks now')
         return
     cj = r['case']
-    frames = [np.array(f, dtype=float).reshape(len(f), -1) for f in cj['frames']]
+    frames = linkgen.frames_from_json(cj['frames'])
     ndim = len(cj['v'])
     frames = [f.reshape(len(f), ndim) for f in frames]
     c = dict(frames=frames, sr=(tuple(Fraction(x) for x in cj['search_range']) if isinstance(cj['search_range'], list) else Fraction(cj['search_range'])), memory=cj['memory'], max_size=cj['max_size'], strategy=cj['link_strategy'],
